@@ -931,6 +931,9 @@ func RunScns(cfg vsched.Config, top ...*Scn) *Result {
 			o := res.Obs[i]
 			o.Run, o.Err, o.Done, o.EndNs = r, err, true, vsched.Now()
 			if len(chains) == 1 {
+				// (a thread that only has to return - the sender of a rendezvous that has just completed - is not "outliving the
+				// call": everything runnable at this instant runs before the count; what is still alive then waits for time or input)
+				vtime.Sleep(time.Nanosecond)
 				o.ThreadsLeft = vsched.LiveThreads()
 			}
 			sc.done = true
